@@ -5,6 +5,8 @@ from . import codes, common
 from panqec.config import DECODERS
 from panqec.error_models import PauliErrorModel
 
+DECODE_TIMEOUT = 60       # seconds; a decode that never returns is a rejected event
+
 COMPLETE = {'MatchingDecoder', 'UnionFindDecoder', 'BeliefPropagationOSDDecoder'}
 # decoders with an internal RNG: validity only, no purity across objects
 RANDOMISED = {'SweepMatchDecoder', 'RotatedSweepMatchDecoder', 'SweepDecoder3D',
@@ -84,9 +86,18 @@ class Recorder:
               'corr': {'x': [], 'z': []}, 'len': 0, 'binary': False,
               'raised': '', 'syn_intact': True, 'tables_intact': True}
         try:
-            import contextlib, io
-            with contextlib.redirect_stdout(io.StringIO()):
-                c = self.objs[obj].decode(syn)
+            import contextlib, io, signal
+
+            def _alarm(signum, frame):
+                raise TimeoutError(f'decode did not return within {DECODE_TIMEOUT}s')
+            old = signal.signal(signal.SIGALRM, _alarm)
+            signal.alarm(DECODE_TIMEOUT)
+            try:
+                with contextlib.redirect_stdout(io.StringIO()):
+                    c = self.objs[obj].decode(syn)
+            finally:
+                signal.alarm(0)
+                signal.signal(signal.SIGALRM, old)
             c = np.asarray(c).ravel()
             ev['len'] = int(c.shape[0])
             ev['binary'] = bool(np.all((c == 0) | (c == 1)))
